@@ -26,17 +26,17 @@ const modPath = "git.torproject.org/pluggable-transports/snowflake.git/v2"
 
 // Prog is the analysed program.
 type Prog struct {
-	RepoDir string
-	Fset    *token.FileSet
-	Pkgs    []*packages.Package // repository packages (non-test), sorted by path
-	SSA     *ssa.Program
-	byRel   map[string]*ssa.Package // "broker" -> package
-	pkgRel  map[*ssa.Package]string
-	fns     []*ssa.Function // every repository function incl. anonymous ones, sorted
-	cg      *callgraph.Graph
-	cgLite  *cgLite
+	RepoDir    string
+	Fset       *token.FileSet
+	Pkgs       []*packages.Package // repository packages (non-test), sorted by path
+	SSA        *ssa.Program
+	byRel      map[string]*ssa.Package // "broker" -> package
+	pkgRel     map[*ssa.Package]string
+	fns        []*ssa.Function // every repository function incl. anonymous ones, sorted
+	cg         *callgraph.Graph
+	cgLite     *cgLite
 	lockEngine *LockEngine
-	LoadS   float64
+	LoadS      float64
 
 	closureSites map[*ssa.Function][]*ssa.MakeClosure
 	callersOf    map[*ssa.Function][]ssa.CallInstruction // static + closure-resolved call sites
